@@ -22,3 +22,16 @@ impl Poll {
         ensures **r == self.pl(),
 //@ enditem
 //@ close
+//@ item src/sys.rs / struct Notifier props=C11
+//@ enditem
+//@ region notifier_specs props=C11
+impl Notifier {
+    pub closed spec fn w_notified(&self) -> bool { self.0.w_notify_called() }
+}
+//@ endregion
+//@ open src/sys.rs / impl Notifier
+//@ item src/sys.rs / impl Notifier / fn notify props=C11 ret=r
+//@ spec
+        ensures self.w_notified(),
+//@ enditem
+//@ close
